@@ -1202,3 +1202,106 @@ func (c *Ctx) membershipPredicate(g *types.Func) bool {
 	}
 	return false
 }
+
+// reachesAvoiding: can `to` be reached from just after `from` along a path that passes none of the `avoid` nodes?
+// Decided at node granularity on the CFG (an avoid node in the same block before `to` blocks the straight path).
+func (fc *funcCFG) reachesAvoiding(from, to ast.Node, avoid []ast.Node) bool {
+	fb, fi := fc.blockOf(from)
+	tb, ti := fc.blockOf(to)
+	if fb == nil || tb == nil {
+		return true
+	}
+	type at struct {
+		b *cfg.Block
+		i int
+	}
+	av := map[at]bool{}
+	for _, a := range avoid {
+		if b, i := fc.blockOf(a); b != nil {
+			av[at{b, i}] = true
+		}
+	}
+	seen := map[*cfg.Block]bool{}
+	// walk the rest of a block from index i; true when `to` is met first
+	var walk func(b *cfg.Block, i int) bool
+	walk = func(b *cfg.Block, i int) bool {
+		for ; i < len(b.Nodes); i++ {
+			if b == tb && i == ti {
+				return true
+			}
+			if av[at{b, i}] {
+				return false
+			}
+		}
+		for _, s := range b.Succs {
+			if seen[s] {
+				continue
+			}
+			seen[s] = true
+			if walk(s, 0) {
+				return true
+			}
+		}
+		return false
+	}
+	return walk(fb, fi+1)
+}
+
+// reachesFromEntryAvoiding: can `to` be reached from the function entry along a path that passes none of `avoid`?
+func (fc *funcCFG) reachesFromEntryAvoiding(to ast.Node, avoid []ast.Node) bool {
+	tb, ti := fc.blockOf(to)
+	if tb == nil || len(fc.g.Blocks) == 0 {
+		return true
+	}
+	type at struct {
+		b *cfg.Block
+		i int
+	}
+	av := map[at]bool{}
+	for _, a := range avoid {
+		if b, i := fc.blockOf(a); b != nil {
+			av[at{b, i}] = true
+		}
+	}
+	seen := map[*cfg.Block]bool{}
+	var walk func(b *cfg.Block) bool
+	walk = func(b *cfg.Block) bool {
+		for i := 0; i < len(b.Nodes); i++ {
+			if b == tb && i == ti {
+				return true
+			}
+			if av[at{b, i}] {
+				return false
+			}
+		}
+		for _, s := range b.Succs {
+			if !seen[s] {
+				seen[s] = true
+				if walk(s) {
+					return true
+				}
+			}
+		}
+		return false
+	}
+	seen[fc.g.Blocks[0]] = true
+	return walk(fc.g.Blocks[0])
+}
+
+// paramObjAt: the object of the i-th parameter of f (nil when unnamed).
+func paramObjAt(f *Fn, i int) types.Object {
+	k := 0
+	for _, fl := range f.Decl.Type.Params.List {
+		if len(fl.Names) == 0 {
+			k++
+			continue
+		}
+		for _, nm := range fl.Names {
+			if k == i {
+				return f.Pkg.TypesInfo.Defs[nm]
+			}
+			k++
+		}
+	}
+	return nil
+}
